@@ -218,6 +218,23 @@ func (i *MessagingMiddleware) interceptDecryptionKeys(
 		return nil, errors.Wrapf(err, "failed to get current decryption trigger for eon %d", originalMsg.Eon)
 	}
 
+	// The keys have to be the ones of the trigger in flight: its slot, tx pointer and signatures are
+	// attached below. Keys for other identities (e.g. derived from the other keypers' shares for a
+	// slot we have not been triggered for yet) must not be sent with them.
+	identityPreimages := []identitypreimage.IdentityPreimage{}
+	for _, key := range originalMsg.Keys {
+		identityPreimages = append(identityPreimages, identitypreimage.IdentityPreimage(key.IdentityPreimage))
+	}
+	identitiesHash := computeIdentitiesHash(identityPreimages)
+	if !bytes.Equal(identitiesHash, trigger.IdentitiesHash) {
+		log.Warn().
+			Uint64("eon", originalMsg.Eon).
+			Hex("expectedIdentitiesHash", trigger.IdentitiesHash).
+			Hex("actualIdentitiesHash", identitiesHash).
+			Msg("intercepted decryption keys message with unexpected identities hash")
+		return nil, nil
+	}
+
 	keyperSet, err := obsKeyperDB.GetKeyperSetByKeyperConfigIndex(ctx, int64(originalMsg.Eon))
 	if err != nil {
 		return nil, errors.Wrapf(err, "failed to get keyper set from database for eon %d", originalMsg.Eon)
